@@ -66,7 +66,7 @@ impl DimMode {
         for dynamic in [false, true] {
             for n in 1..=8u8 {
                 let d = DimMode { dynamic, n };
-                if d.name() == s {
+                if d.name() == s && (dynamic || n <= 4) {
                     return Some(d);
                 }
             }
@@ -421,6 +421,8 @@ pub enum Drive {
     PollThenCount,
     /// `next()` until the first `Err` or `None`, then `last()` on the same iterator
     PollThenLast,
+    /// `next()` until the first `Err` or `None`, then `nth(m)` for the polls after the end
+    PollThenNth(u8),
     /// `it.nth(m)` with m >= 1 (what `skip` and `step_by` are built on), compared with the
     /// provided implementation over `next()`
     NthSkip(u8),
@@ -442,6 +444,7 @@ impl Drive {
             Drive::PollThenCollect => "poll_then_collect_vec".into(),
             Drive::PollThenCount => "poll_then_count".into(),
             Drive::PollThenLast => "poll_then_last".into(),
+            Drive::PollThenNth(m) => format!("poll_then_nth:{}", m),
             Drive::NthSkip(m) => format!("nth:{}", m),
             Drive::Count => "count".into(),
             Drive::Last => "last".into(),
@@ -459,6 +462,7 @@ impl Drive {
             "poll_then_last" => Some(Drive::PollThenLast),
             "count" => Some(Drive::Count),
             "last" => Some(Drive::Last),
+            _ if s.starts_with("poll_then_nth:") => s.strip_prefix("poll_then_nth:").and_then(|n| n.parse().ok()).map(Drive::PollThenNth),
             _ if s.starts_with("nth:") => s.strip_prefix("nth:").and_then(|n| n.parse().ok()).map(Drive::NthSkip),
             _ => s
                 .strip_prefix("take_bursts:")
